@@ -53,6 +53,7 @@ type echoCfg struct {
 	bigFrames         bool
 	padTokens         bool
 	hugeFrames        bool
+	pSplit            int // percent of answers that arrive in two pieces with a gap of 1.5 x the driver's timeout inside the body
 	seed              int64
 }
 
@@ -81,7 +82,9 @@ type echoResult struct {
 	cluster                *fakenode.Cluster
 	conservation           []string
 	recvStalls             []string
-	receiverSideRecord     bool // the byte streams were recorded by the peer of a real socket, not by the transport itself
+	splits                 int64
+	logLines               []string // what the driver logged (through ClusterConfig.Logger)
+	receiverSideRecord     bool     // the byte streams were recorded by the peer of a real socket, not by the transport itself
 	afterClose             []string
 	dataConns              []*fakenode.ServerConn
 	wireProblems           []wireProblem
@@ -177,6 +180,7 @@ type echoNode struct {
 	closing       int32
 	timers        int64
 	dup           []string
+	splits        int64
 }
 
 func h32(s string, salt int64) uint32 {
@@ -208,6 +212,19 @@ func (en *echoNode) answer(sc *fakenode.ServerConn, req *fakenode.Req, token str
 		return
 	}
 	var err error
+	if en.cfg.pSplit > 0 && int(h32(token, 11)%100) < en.cfg.pSplit && !sc.Control() {
+		// the answer arrives in two pieces, with a gap longer than the driver's read timeout inside the body
+		w := cqlref.BodyRows(sc.Version, &cqlref.RowsSpec{Meta: cqlref.Metadata{Global: true, ColCount: 1, Columns: []cqlref.Column{{Keyspace: "e", Table: "e", Name: "v", Type: &cqlref.Type{ID: cqlref.TText}}}}, Rows: [][][]byte{{[]byte(payload)}}})
+		f, _ := cqlref.BuildFrame(sc.Version, req.Header.Stream, cqlref.OpResult, nil, w, sc.Compressor())
+		hs := cqlref.HeaderSize(sc.Version)
+		cut := hs + 1 + int(h32(token, 12))%(len(f)-hs-1)
+		atomic.AddInt64(&en.splits, 1)
+		err = sc.WriteReplySplit(req, f, cut, en.cfg.timeout+en.cfg.timeout/2)
+		if late && err == nil {
+			atomic.AddInt64(&en.lateDelivered, 1)
+		}
+		return
+	}
 	if int(h32(token, 2)%100) < en.cfg.pErrFrame {
 		err = sc.ReplyError(req, &cqlref.ErrSpec{Code: 0x0000, Message: payload})
 	} else {
@@ -411,6 +428,13 @@ func runEcho(c *runner.Ctx, ec *echoCfg) *echoResult {
 	}
 	cfg.NumConns = ec.numConns
 	cfg.StreamObserver = res.streamObs
+	lg := &bufLogger{}
+	cfg.Logger = lg
+	defer func() {
+		lg.mu.Lock()
+		res.logLines = append([]string{}, lg.lines...)
+		lg.mu.Unlock()
+	}()
 	cfg.PageSize = 0
 	cfg.DefaultTimestamp = false
 	sess, err := cfg.CreateSession()
@@ -595,6 +619,7 @@ func runEcho(c *runner.Ctx, ec *echoCfg) *echoResult {
 		wg2.Wait()
 	}
 	res.lateDelivered = atomic.LoadInt64(&en.lateDelivered)
+	res.splits = atomic.LoadInt64(&en.splits)
 	en.mu.Lock()
 	res.lateReused = en.lateReused
 	res.dupTokens = append(res.dupTokens, en.dup...)
@@ -886,4 +911,25 @@ func echoWireStreams(res *echoResult, streams []wireStream) {
 			add("C07:acknowledged-write-missing", fmt.Sprintf("request %s ended with %q (its write was reported successful) but no complete frame for it is in the byte stream", tok, cls))
 		}
 	}
+}
+
+// echoDesync: signs that the driver lost its place in the response stream or forgot a request the node answered.
+// The scripted node only writes well-formed frames in answer to requests, over a FIFO transport, so none of these
+// can be the peer's doing.
+func echoDesync(res *echoResult) []string {
+	var out []string
+	for k, n := range res.outcomes {
+		for _, sig := range []string{"unsupported protocol response version", "beyond call expected bounds", "received unexpected frame on stream", "incorrect streamID", "unknown result kind", "unknown op in frame header"} {
+			if strings.Contains(k, sig) {
+				out = append(out, fmt.Sprintf("%d calls ended with %q although the node only sent well-formed answers", n, k))
+			}
+		}
+	}
+	for _, l := range res.logLines {
+		if strings.Contains(l, "which has no handler") {
+			out = append(out, "the driver logged: "+clipS(strings.TrimSpace(l)))
+			break
+		}
+	}
+	return out
 }
